@@ -24,6 +24,7 @@ META = {
     "required_counters": ["must_reject_seen", "must_accept_seen"],
     "assumptions": [],
 }
+META["claim"] += " " + 'Also: every sequencing history again with per-fragment delivery and with validation off; a quarter of the header space with trace logging switched on.'
 
 import logging as _logging
 
